@@ -1,0 +1,22 @@
+//go:build verif
+
+package tl
+
+import "reflect"
+
+// VerifRegistry returns a copy of the constructor registry (crc -> registered pointer type)
+// and of the set of enum crcs. Read-only export for the verification harness.
+func VerifRegistry() (objects map[uint32]reflect.Type, enums map[uint32]bool) {
+	objects = make(map[uint32]reflect.Type, len(objectByCrc))
+	for k, v := range objectByCrc {
+		objects[k] = v
+	}
+	enums = make(map[uint32]bool, len(enumCrcs))
+	for k := range enumCrcs {
+		enums[k] = true
+	}
+	return objects, enums
+}
+
+// VerifWrappedSliceData exposes the payload of a WrappedSlice.
+func VerifWrappedSliceData(w *WrappedSlice) interface{} { return w.data }
